@@ -52,6 +52,7 @@ var (
 	// written (bit rot). goleveldb's contract: with block checksums verified the read fails with a
 	// corruption error; without, the damaged block is used as it is (the key is not found).
 	DamagedBlocks bool
+	batches       map[*leveldb.Batch][]KV
 )
 
 func InstallDisk() {
@@ -69,6 +70,21 @@ func InstallDisk() {
 	Override("(*github.com/syndtr/goleveldb/leveldb.DB).Has", dmHas)
 	Override("(*github.com/syndtr/goleveldb/leveldb.DB).Close", dmClose)
 	Override("(*github.com/syndtr/goleveldb/leveldb.DB).NewIterator", dmNewIterator)
+	// write batches: the records sit in process memory until the batch is written
+	batches = map[*leveldb.Batch][]KV{}
+	Override("(*github.com/syndtr/goleveldb/leveldb.Batch).Put", func(b *leveldb.Batch, key, value []byte) {
+		batches[b] = append(batches[b], KV{K: key, V: value})
+	})
+	Override("(*github.com/syndtr/goleveldb/leveldb.Batch).Len", func(b *leveldb.Batch) int { return len(batches[b]) })
+	Override("(*github.com/syndtr/goleveldb/leveldb.Batch).Reset", func(b *leveldb.Batch) { delete(batches, b) })
+	Override("(*github.com/syndtr/goleveldb/leveldb.DB).Write", func(db *leveldb.DB, b *leveldb.Batch, wo *opt.WriteOptions) error {
+		for _, kv := range batches[b] {
+			if err := dmPut(db, kv.K, kv.V, wo); err != nil {
+				return err
+			}
+		}
+		return nil
+	})
 	Override("os.MkdirAll", dmMkdirAll)
 	Override("os.Mkdir", dmMkdir)
 	Override("os.Rename", dmRename)
